@@ -86,6 +86,7 @@ InitState ==
    pipe |-> <<>>,
    io |-> [rlist |-> <<>>, wlist |-> <<>>, deadline |-> NodeCfg.wakeup, done |-> FALSE],
    e2e |-> 1000,
+   frag |-> [c \in ConnIds |-> FALSE],     \* environment bookkeeping: the first part of a message was fed on c, the rest is due
    snd |-> <<>>,                           \* application threads blocked in send_request: [k, a, hbh, e2e, c, dl, st, ans]
    held |-> <<>>,                          \* requests delivered to "hold" applications: [a, c, m, answered]
    overflow |-> FALSE,                     \* the instance's MaxConn bound cut a dial short (such states are discarded)
@@ -367,8 +368,10 @@ RdStep(S, c) ==
   IF k.readQ = <<>>
   THEN IF k.rdStop THEN [S EXCEPT !.conn[c].rdDone = TRUE] ELSE [S EXCEPT !.conn[c].rdDl = S.now + 5]
   ELSE LET S1 == [S EXCEPT !.conn[c].readQ = Tail(@), !.conn[c].lastRead = S.now]
-           S2 == Dispatch(S1, c, Head(k.readQ))
-       IN IF S2.conn[c].rdStop THEN [S2 EXCEPT !.conn[c].rdDone = TRUE] ELSE [S2 EXCEPT !.conn[c].rdDl = S.now + 5]
+       IN IF Len(Head(k.readQ)) > 0 /\ Head(k.readQ)[1].cmd = "GARBAGE"   \* unparsable header: "only garbage", self.close(); return
+          THEN [ConnClose(S1, c, TRUE) EXCEPT !.conn[c].rdDone = TRUE]
+          ELSE LET S2 == Dispatch(S1, c, Head(k.readQ))     \* (a fragment of a message is an empty chunk: nothing to dispatch yet)
+               IN IF S2.conn[c].rdStop THEN [S2 EXCEPT !.conn[c].rdDone = TRUE] ELSE [S2 EXCEPT !.conn[c].rdDl = S.now + 5]
 
 WrEnabled(S, c) == S.conn[c].used /\ ~S.conn[c].wrDone /\ (S.conn[c].writeQ # <<>> \/ S.now >= S.conn[c].wrDl)
 WrStep(S, c) ==
